@@ -247,6 +247,9 @@ def mk_values(max_ops, thorough, part, nparts):
             return ZNum(self.t / o.t, self.div + o.div + (o.t,))
 
         def __rtruediv__(self, o): return ZNum.lift(o).__truediv__(self)
+        # `a // b` is floor(a / b) over the reals (the float-rounding difference between the two is outside the claim)
+        def __floordiv__(self, o): return self.__truediv__(o).__floor__()
+        def __rfloordiv__(self, o): return ZNum.lift(o).__truediv__(self).__floor__()
         def __neg__(self): return ZNum(-self.t, self.div)
         def __pos__(self): return self
         def __floor__(self): return ZNum(z3.ToReal(z3.ToInt(self.t)), self.div)
